@@ -14,6 +14,9 @@ Driver family `explorer` (C19).  Case lines (a sequence shares its `<cid>`; `gsn
 * `gsconc <cid> rounds= sets= reads= appends= wrong= panics= first=`         concurrent readers/writers (results checked in Go)
 * `gsrace <cid> detected=<n> read=<func> write=<func>`                       the race detector's verdict (written by checks/c19.py)
 * `vfy  <cid> v=<canon> addrs=<keys> rec=<tbl> res=nil|noaddr|notsigned|noquorum|badsigs|panic`   `verifyVAA`
+        (Spec clauses: `verify-accepts-unverified` - nil for a VAA that is not signed / has no quorum of / is not `Valid` for `addrs`;
+         `gate-accepts-invalid-signature-list` - additionally, when the signature list itself is one `VerifySignatures` rejects;
+         the same pair on `push` lines is `queued-unverified` + `gate-accepts-invalid-signature-list`)
 * `quo  <cid> n=<n> q=<q>`                                                   `processor.CalculateQuorum` (module-cache version)
 * `push <cid> v=<canon> rec=<tbl> hit=0|1 room=0|1 dial=0|1 chain=<log> res=<class> enq=0|1 qsame=0|1 getkey=0|1 stored=0|1
         setkey=0|1 sent=<sets> cur= list= named=<keys>`                      `Push` (state lines come from a verif-only accessor)
@@ -135,6 +138,22 @@ def verifiedB (recover : Bytes → Option Addr) (v : Vaa) (named : Option (List 
   match named with
   | none => false
   | some a => !v.sigs.isEmpty && decide (quorum a.length ≤ v.sigs.length) && VaaFam.validB recover v.sigs a
+
+/-- The C06 part of the acceptance condition on its own: the signature list is one `VerifySignatures` accepts against the
+named keys (`VaaFam.validB` is `C06.Valid`, `C06.validB_iff`; `C06.verify_iff` equates it with the model of `VerifySignatures`).
+`false` = "the gate let through a list that `VerifySignatures` against the named set rejects". -/
+def sigListOkB (recover : Bytes → Option Addr) (v : Vaa) (named : Option (List Addr)) : Bool :=
+  match named with
+  | none => true
+  | some a => VaaFam.validB recover v.sigs a
+
+def showSigIdx (v : Vaa) : String := ",".intercalate (v.sigs.map fun s => toString s.idx)
+
+/-- The extra verdict for clause `gate-accepts-invalid-signature-list` (owned by C19, also reported by C06 for its anchor
+vaa_gossip_consumer.go). -/
+def gateVerdict (id how : String) (recover : Bytes → Option Addr) (v : Vaa) (named : Option (List Addr)) : List String :=
+  if sigListOkB recover v named then [] else
+  [s!"spec {id} gate-accepts-invalid-signature-list {how}: the explorer's verification gate accepted a signature list that VerifySignatures against the named set rejects - {v.sigs.length} signature(s) with indexes [{showSigIdx v}] against {(named.map List.length).getD 0} key(s) (quorum {quorum ((named.map List.length).getD 0)})"]
 
 def step (st : St) (line : String) : St × List String :=
   let fs := fields line
@@ -292,7 +311,8 @@ def step (st : St) (line : String) : St × List String :=
       let st := { st with n := st.n + 1 }
       let m := match verifyVAA recover v addrs with | none => "nil" | some e => verifyErrName e
       if res = "nil" && !verifiedB recover v addrs then
-        (st, [s!"spec {id} verify-accepts-unverified verifyVAA accepted {v.sigs.length} signature(s) against {(addrs.map List.length).getD 0} key(s) (quorum {quorum ((addrs.map List.length).getD 0)})"])
+        (st, [s!"spec {id} verify-accepts-unverified verifyVAA accepted {v.sigs.length} signature(s) against {(addrs.map List.length).getD 0} key(s) (quorum {quorum ((addrs.map List.length).getD 0)})"]
+              ++ gateVerdict id "verifyVAA returned nil" recover v addrs)
       else if res ≠ m then (st, [s!"diff {id} verifyVAA model={m} impl={res}"])
       else (if res = "nil" then { st with nVfyOk := st.nVfyOk + 1 } else { st with nVfyRej := st.nVfyRej + 1 }, [s!"ok {id}"])
     | _, _, _, _ => (st, [s!"diff {id} unparsable vfy line"])
@@ -309,7 +329,8 @@ def step (st : St) (line : String) : St × List String :=
       let keysOk := b01 (kv rest "getkey") != some false && b01 (kv rest "setkey") != some false
       -- Spec, on the implementation's own behaviour
       if enq && !verifiedB recover v named then
-        (st', [s!"spec {id} queued-unverified queued a VAA naming set {v.gsIndex} with {v.sigs.length} signature(s) that is not verified against that set ({(named.map List.length).getD 0} keys)"])
+        (st', [s!"spec {id} queued-unverified queued a VAA naming set {v.gsIndex} with {v.sigs.length} signature(s) that is not verified against that set ({(named.map List.length).getD 0} keys)"]
+               ++ gateVerdict id s!"Push queued a VAA naming set {v.gsIndex}" recover v named)
       else if enq && !qsame then (st', [s!"spec {id} queued-wrong-message the queued message is not the pushed VAA / bytes"])
       else if stored && !enq then (st', [s!"spec {id} marked-seen-without-queueing res={res}: the message id was stored in the dedup cache although nothing was queued"])
       else if st.realistic && res = "panic" then (st', [s!"spec {id} get-panic Push panicked in {showState st.g}"])
